@@ -438,13 +438,13 @@ func (ex *Exec) slice(instr *ssa.Slice, x, lo, hi, max value) value {
 	h := int64(len(s))
 	m := int64(cap(s))
 	if lo != nil {
-		l = ex.concreteInt(lo, "slice low")
+		l = ex.smallInt(lo, "slice low")
 	}
 	if hi != nil {
-		h = ex.concreteInt(hi, "slice high")
+		h = ex.smallInt(hi, "slice high")
 	}
 	if max != nil {
-		m = ex.concreteInt(max, "slice max")
+		m = ex.smallInt(max, "slice max")
 	}
 	if l < 0 || l > h || h > m || m > int64(cap(s)) {
 		ex.runtimePanic("slice bounds out of range")
@@ -949,4 +949,25 @@ func (ex *Exec) doRecover(caller *frame) value {
 		panic(p)
 	}
 	return iface{}
+}
+
+// smallInt returns a concrete value for an integer term, case-splitting over its (small)
+// range when it is symbolic.
+func (ex *Exec) smallInt(v value, what string) int64 {
+	t, ok := v.(*Term)
+	if !ok {
+		panic(unsupported{"non-term " + what})
+	}
+	if t.IsConst() {
+		return signExt(t.u, t.sort.W)
+	}
+	r := ex.rangeOf(t, 0)
+	if r.hi-r.lo > 64 || r.hi-r.lo < 0 {
+		panic(unsupported{fmt.Sprintf("symbolic %s with range [%d,%d]", what, r.lo, r.hi)})
+	}
+	conds := make([]*Term, 0, r.hi-r.lo+1)
+	for x := r.lo; x <= r.hi; x++ {
+		conds = append(conds, ex.tc.Eq(t, ex.tc.Int64(x)))
+	}
+	return r.lo + int64(ex.choose(conds))
 }
